@@ -9,9 +9,19 @@ import AnsiProofs.Lemmas.StrLike
   functions (`dropWhile`, `isPrefixOf`, `isSuffixOf`, `take`, `drop`).  The section "the
   specifications mean what they say" proves the characteristic properties of the scanning
   specifications (first / last occurrence), which is also what links them to `find` / `rfind`.
+
+  Contents: 1 strip (`strip_text`, `default_strip_set`), 2 `removeprefix_text`/`removesuffix_text`,
+  3 `partition_text`/`rpartition_text`/`partition_lossless`, 4 `replace_text`/`replace_text_str`/
+  `replace_text_empty`, 5 `expandtabs_text`, 6 `mapText_text`, 7 `split_text`/`splitWs_text`/
+  `splitlines_text` with `pieceOffsets_sep`, `split_join`, `split_maxsplit`,
+  `split_is_repeated_partition`.  All statements hold for ALL inputs; none had to be weakened.
+  For `split`/`rsplit`/`splitlines` the reference on the right-hand side is the model of the CPython
+  primitive (`Py.splitSep`, `Py.rsplitSep`, `Py.splitWs`, `Py.rsplitWs`, `Py.splitlines`), which the
+  differential harness ties to CPython; `split_join`/`split_maxsplit`/`split_is_repeated_partition`
+  say what `Py.splitSep` is.  Helper lemmas: `AnsiProofs/Lemmas/StrLike.lean` (namespace `StrLikeL`).
 -/
 
-open SL
+open StrLikeL
 
 namespace PySpec
 
@@ -296,6 +306,8 @@ theorem replaceGo_first (old new : Str) (hold : old ≠ []) (pre post : Str) (c 
 
 end PySpec
 
+namespace C10
+
 /-! ## 1 — strip / lstrip / rstrip -/
 
 /-- the default strip set (`WHITESPACE_CHARS`) is `' \t\n\r\v\f'` -/
@@ -534,13 +546,44 @@ theorem split_text (x : AStr) (sep : Str) (m : Int) (r : Bool) (ps : List AStr) 
       · exact rsplitSep_ne x.s _ m
     exact pieceOffsets_text x.s _ _ 0 (join_laid (c :: sp) _ hne x.s [] hj).2
 
+/-- what `str.split` means, in terms of the specification of `partition`: cut at the FIRST
+    occurrence of `sep` (unless `maxsplit` is exhausted) and split the rest with `maxsplit - 1`.
+    This equation determines `Py.splitSep` uniquely (the rest is shorter), so the model of
+    `str.split` — including its fuel — is "repeated `partition`". -/
+theorem split_is_repeated_partition (s sep : Str) (hsep : sep ≠ []) (m : Int) :
+    Py.splitSep s sep m =
+      if m = 0 then [s]
+      else match PySpec.splitFirst sep s with
+        | none => [s]
+        | some ba => ba.1 :: Py.splitSep ba.2 sep (m - 1) := by
+  rw [splitSep_unfold s sep hsep m]
+  cases h : PySpec.splitFirst sep s with
+  | none =>
+    have hn := PySpec.splitFirst_none h
+    rw [(find_none_iff _ _ _).mpr (fun i hi _ => hn i hi)]
+  | some ba =>
+    obtain ⟨b, a⟩ := ba
+    obtain ⟨h1, h2⟩ := PySpec.splitFirst_some h
+    have hocc : sep.isPrefixOf (s.drop b.length) = true := by rw [h1]; exact occ_of_decomp b sep a
+    have hlen : b.length ≤ s.length := by rw [h1]; simp
+    rw [(find_some_iff _ _ _ _).mpr ⟨hlen, Nat.zero_le _, hocc, fun i hi _ => h2 i hi⟩]
+    simp only
+    have ht : s.take b.length = b := by rw [h1, List.append_assoc]; exact List.take_left' rfl
+    have hd : s.drop (b.length + sep.length) = a := by
+      rw [h1]; exact List.drop_left' (by simp)
+    rw [ht, hd]
+
+/-- `rsplit` is the mirror image of `split` (by definition of the model) -/
+theorem rsplit_is_mirror (s sep : Str) (m : Int) :
+    Py.rsplitSep s sep m = ((Py.splitSep s.reverse sep.reverse m).map List.reverse).reverse := rfl
+
 /-- the empty separator is `str`'s ValueError -/
 theorem split_empty_sep (x : AStr) (m : Int) (r : Bool) :
     x.splitGen (some []) m r = .error .valueError := rfl
 
 /-- whitespace splitting (`sep=None`): holds in full.  The offsets are recovered by a `find` from
     the previous end; they may be EARLIER than the true ones only for an empty piece (none occurs
-    here), and in any case the slice found is the piece (`SL.pieceOffsets_text`). -/
+    here), and in any case the slice found is the piece (`StrLikeL.pieceOffsets_text`). -/
 theorem splitWs_text (x : AStr) (m : Int) (r : Bool) (ps : List AStr)
     (h : x.splitGen none m r = .ok ps) :
     ps.map (·.s) = (if r then Py.rsplitWs x.s m else Py.splitWs x.s m) := by
@@ -575,3 +618,145 @@ theorem rfind_last (s sub : Str) (i : Nat) :
       i ≤ s.length ∧ sub.isPrefixOf (s.drop i) = true ∧
         ∀ j, i < j → j ≤ s.length → sub.isPrefixOf (s.drop j) = false :=
   rfind_some_iff s sub i
+
+/-- `replace` with an AnsiString/AnsiStr `new`, any `old` (empty or not) -/
+theorem replace_text_any (x : AStr) (old : Str) (v : AStr) (count : Int) (nid : Nat) :
+    (x.replace old (.astr v) count nid).s = PySpec.replace x.s old v.s count := by
+  cases old with
+  | nil => exact replace_text_empty x (.astr v) trivial count nid
+  | cons c o => exact replace_text x (c :: o) v count nid (by simp)
+
+/-- `replace` with a plain `str` `new` without ESC, any `old` -/
+theorem replace_text_str_any (x : AStr) (old raw : Str) (count : Int) (nid : Nat) (hraw : NoEsc raw) :
+    (x.replace old (.str raw) count nid).s = PySpec.replace x.s old raw count := by
+  cases old with
+  | nil => exact replace_text_empty x (.str raw) hraw count nid
+  | cons c o => exact replace_text_str x (c :: o) raw count nid (by simp) hraw
+
+/-! ## Non-vacuity: the specifications and the model on concrete inputs -/
+
+section Examples
+
+/-- a styled value: `"  ab cab  "` with bold on `ab c` -/
+private def exX : AStr :=
+  { s := "  ab cab  ".toList,
+    fmts := [(2, { add := [⟨0, "1".toList⟩] }), (6, { rem := [⟨0, "1".toList⟩] })] }
+
+/-- a value with bold on its first character -/
+private def exA (t : String) : AStr :=
+  { s := t.toList, fmts := [(0, { add := [⟨0, "1".toList⟩] }), (1, { rem := [⟨0, "1".toList⟩] })] }
+
+/-! strip -/
+example : PySpec.strip Gen.whitespaceChars " \t ab c \n".toList = "ab c".toList := by decide
+example : PySpec.lstrip "xy".toList "xyaxy".toList = "axy".toList := by decide
+example : PySpec.rstrip "xy".toList "xyaxy".toList = "xya".toList := by decide
+example : (exX.stripGen none true true false).s = "ab cab".toList := by decide
+example : (exX.stripGen none false true true).s = "  ab cab".toList := by decide
+/-- the corner case: everything is stripped from the left, `rcount` stays `None` -/
+example : ((exA "   ").stripGen none true true false).s = [] ∧
+    PySpec.strip Gen.whitespaceChars "   ".toList = [] := by decide
+
+/-! removeprefix / removesuffix -/
+example : PySpec.removeprefix "abcab".toList "ab".toList = "cab".toList := by decide
+example : PySpec.removesuffix "abcab".toList "ab".toList = "abc".toList := by decide
+example : PySpec.removesuffix "abcab".toList [] = "abcab".toList := by decide
+example : PySpec.removeprefix "abcab".toList "b".toList = "abcab".toList := by decide
+example : ((exA "abcab").removeprefix "ab".toList).s = "cab".toList := by decide
+example : ((exA "abcab").removesuffix "ab".toList).s = "abc".toList := by decide
+
+/-! partition / rpartition (self-overlapping pattern; absent separator) -/
+example : PySpec.partition "aaa".toList "aa".toList = ([], "aa".toList, "a".toList) := by decide
+example : PySpec.rpartition "aaa".toList "aa".toList = ("a".toList, "aa".toList, []) := by decide
+example : PySpec.partition "k=v=w".toList "=".toList = ("k".toList, "=".toList, "v=w".toList) := by
+  decide
+example : PySpec.rpartition "k=v=w".toList "=".toList = ("k=v".toList, "=".toList, "w".toList) := by
+  decide
+example : PySpec.rpartition "abc".toList "=".toList = ("abc".toList, [], []) := by decide
+example : (((exA "aaa").partitionGen "aa".toList true).1.s,
+    ((exA "aaa").partitionGen "aa".toList true).2.1.s,
+    ((exA "aaa").partitionGen "aa".toList true).2.2.s) = ("a".toList, "aa".toList, []) := by decide
+
+/-! replace (self-overlapping pattern, count, empty `old`) -/
+example : PySpec.replace "aaa".toList "aa".toList "b".toList (-1) = "ba".toList := by decide
+example : PySpec.replace "aaaa".toList "a".toList "bb".toList 2 = "bbbbaa".toList := by decide
+example : PySpec.replace "xabbbb".toList "ab".toList "ab-ab".toList (-1) = "xab-abbbb".toList := by
+  decide
+example : PySpec.replace "abc".toList [] "x".toList (-1) = "xaxbxcx".toList := by decide
+example : PySpec.replace "abc".toList [] "x".toList 2 = "xaxbc".toList := by decide
+example : PySpec.replace "abc".toList "b".toList "x".toList 0 = "abc".toList := by decide
+/-- hypotheses of `replace_text` / `replace_text_str` are satisfiable -/
+example : "aa".toList ≠ [] ∧ NoEsc "b-".toList := ⟨by decide, by unfold NoEsc; decide⟩
+example : ((exA "aaa").replace "aa".toList (.astr (exA "b")) (-1) 7).s = "ba".toList := by decide
+example : ((exA "aaa").replace "a".toList (.str "b-".toList) 2 7).s = "b-b-a".toList := by decide
+example : ((exA "ab").replace [] (.astr (exA "x")) (-1) 7).s = "xaxbx".toList := by decide
+/-- `NoEsc raw` is needed: a `str` replacement containing an SGR sequence is parsed (the sequence
+    leaves the text) while the loop still advances by `len(new)` -/
+example : ((exA "aba").replace "a".toList (.str "\x1b[4mX".toList) (-1) 7).s = "Xba".toList ∧
+    PySpec.replace "aba".toList "a".toList "\x1b[4mX".toList (-1) = "\x1b[4mXb\x1b[4mX".toList := by
+  decide +kernel
+example : ReplOk (.str "b-".toList) ∧ ReplOk (.astr (exA "x")) :=
+  ⟨by show '\x1b' ∉ "b-".toList; decide, trivial⟩
+
+/-! expandtabs -/
+example : ((exA "a\tb\t").expandtabs 2 7).s = "a  b  ".toList := by decide
+example : PySpec.replace "a\tb\t".toList ['\t'] (List.replicate (2 : Int).toNat ' ') (-1) =
+    "a  b  ".toList := by decide
+
+/-! split / rsplit (separator occurring inside later pieces; maxsplit; adjacent separators) -/
+/-- the hypotheses of `split_text` are satisfiable -/
+example : ∃ ps, (exA "xabbbb").splitGen (some "ab".toList) (-1) false = .ok ps ∧
+    ps.map (·.s) = ["x".toList, "bbb".toList] := ⟨_, rfl, by decide⟩
+example : ∃ ps, (exA "a,b,,c").splitGen (some ",".toList) 2 true = .ok ps ∧
+    ps.map (·.s) = ["a,b".toList, [], "c".toList] := ⟨_, rfl, by decide⟩
+example : Py.splitSep "abab".toList "ab".toList (-1) = [[], [], []] := by decide
+example : Py.splitSep "a,b,c".toList ",".toList 1 = ["a".toList, "b,c".toList] := by decide
+example : Py.rsplitSep "a,b,c".toList ",".toList 1 = ["a,b".toList, "c".toList] := by decide
+example : AStr.pieceOffsets "a,,bc,".toList 1 (Py.splitSep "a,,bc,".toList ",".toList (-1)) 0 =
+    [(0, 1), (2, 0), (3, 2), (6, 0)] := by decide
+/-- the hypothesis of `splitWs_text` is satisfiable -/
+example : ∃ ps, (exA " a  b ").splitGen none (-1) true = .ok ps ∧
+    ps.map (·.s) = ["a".toList, "b".toList] := ⟨_, rfl, by decide⟩
+example : ∃ ps, (exA " a  b c ").splitGen none 1 false = .ok ps ∧
+    ps.map (·.s) = ["a".toList, "b c ".toList] := ⟨_, rfl, by decide⟩
+
+/-! splitlines: an empty line is found EARLY (offset 1 instead of the true offset 2) — harmless
+    for the text, since the piece is empty -/
+example : AStr.pieceOffsets "a\n\nb".toList 0 (Py.splitlines "a\n\nb".toList false) 0 =
+    [(0, 1), (1, 0), (3, 1)] ∧
+    offsetsFrom 1 (Py.splitlines "a\n\nb".toList false) 0 = [(0, 1), (2, 0), (3, 1)] := by decide
+example : ((exA "a\r\n\nb\n").splitlines true).map (·.s) =
+    ["a\r\n".toList, "\n".toList, "b\n".toList] := by decide
+example : ((exA "a\r\n\nb\n").splitlines false).map (·.s) = ["a".toList, [], "b".toList] := by
+  decide
+
+end Examples
+
+#print axioms default_strip_set
+#print axioms strip_text
+#print axioms removeprefix_text
+#print axioms removesuffix_text
+#print axioms partition_text
+#print axioms rpartition_text
+#print axioms partition_lossless
+#print axioms replace_text
+#print axioms replace_text_str
+#print axioms replace_text_empty
+#print axioms replace_text_any
+#print axioms replace_text_str_any
+#print axioms expandtabs_text
+#print axioms mapText_text
+#print axioms split_join
+#print axioms rsplit_join
+#print axioms split_maxsplit
+#print axioms rsplit_maxsplit
+#print axioms pieceOffsets_sep
+#print axioms pieceOffsets_sep_slice
+#print axioms split_text
+#print axioms split_is_repeated_partition
+#print axioms split_empty_sep
+#print axioms splitWs_text
+#print axioms splitlines_text
+#print axioms find_first
+#print axioms rfind_last
+
+end C10
